@@ -1,0 +1,61 @@
+//go:build verif
+
+// Contracts for the verification machinery in /verif (comment-only; no code).
+// Syntax: see /verif/DESIGN.md section 3.
+
+package kademlia
+
+//@ spec func sign3(d int) int = d < 0 ? 0-1 : (d > 0 ? 1 : 0)
+//@
+//@ spec func dcmpFrom(x []byte, a []byte, b []byte, j int, n int) int = \
+//@     j >= n ? sign3(min(len(x), len(a)) - min(len(x), len(b))) \
+//@            : (xor8(x[j], a[j]) < xor8(x[j], b[j]) ? 0-1 \
+//@            : (xor8(x[j], a[j]) > xor8(x[j], b[j]) ? 1 : dcmpFrom(x, a, b, j+1, n)))
+//@
+//@ func min
+//@   ensures len(xs) == 0 ==> ret == 0
+//@   ensures forall j :: 0 <= j && j < len(xs) ==> ret <= xs[j]
+//@   ensures len(xs) >= 1 ==> exists j :: 0 <= j && j < len(xs) && ret == xs[j]
+//@   loop 0:
+//@     invariant 0 <= i && i <= len(xs)
+//@     invariant i == 0 ==> ret == 0
+//@     invariant forall j :: 0 <= j && j < i ==> ret <= xs[j]
+//@     invariant i >= 1 ==> exists j :: 0 <= j && j < i && ret == xs[j]
+//@
+//@ func LeadingZeros
+//@   ensures 0 <= ret && ret <= 8*len(x)
+//@   ensures forall j :: 0 <= j && j < ret/8 ==> x[j] == 0
+//@   ensures ret < 8*len(x) ==> x[ret/8] != 0 && lz8(x[ret/8]) == ret % 8
+//@   loop 0:
+//@     invariant 0 <= i && i <= len(x)
+//@     invariant total == 8*i
+//@     invariant forall j :: 0 <= j && j < i ==> x[j] == 0
+//@
+//@ func XORBytes
+//@   modifies all(dst)
+//@   ensures ret == min(len(dst), len(a), len(b))
+//@   ensures arr(dst) != arr(a) && arr(dst) != arr(b) ==> \
+//@           forall j :: 0 <= j && j < ret ==> dst[j] == xor8(a[j], b[j])
+//@   ensures forall j :: j < off(dst) || j >= off(dst) + ret ==> elemAt(dst, j) == old(elemAt(dst, j))
+//@   loop 0:
+//@     invariant 0 <= i && i <= l
+//@     invariant arr(dst) != arr(a) && arr(dst) != arr(b) ==> \
+//@           forall j :: 0 <= j && j < i ==> dst[j] == xor8(a[j], b[j])
+//@     invariant forall j :: j < off(dst) || j >= off(dst) + i ==> elemAt(dst, j) == old(elemAt(dst, j))
+//@
+//@ func Distance
+//@   ensures len(ret) == min(len(a), len(b))
+//@   ensures fresh(ret)
+//@   ensures forall j :: 0 <= j && j < len(ret) ==> ret[j] == xor8(a[j], b[j])
+//@
+//@ func DistanceCmp
+//@   ensures ret == dcmpFrom(x, a, b, 0, min(len(x), len(a), len(b)))
+//@   loop 0:
+//@     invariant 0 <= i && i <= l
+//@     invariant dcmpFrom(x, a, b, 0, l) == dcmpFrom(x, a, b, i, l)
+//@
+//@ func DistanceLt
+//@   ensures ret <==> dcmpFrom(x, a, b, 0, min(len(x), len(a), len(b))) < 0
+//@
+//@ func DistanceGt
+//@   ensures ret <==> dcmpFrom(x, a, b, 0, min(len(x), len(a), len(b))) > 0
